@@ -33,6 +33,13 @@ OPESAD = cv("x", 1, GRIDCV) + ("opes_metad {\n  name o\n  colvars x\n  newHillFr
                                "  adaptiveSigmaStride 4\n}\n")
 OPESPMF = cv("x", 1, GRIDCV) + ("opes_metad {\n  name o\n  colvars x\n  newHillFrequency 2\n  barrier 10\n  gaussianSigma 0.5\n"
                                 "  pmf on\n  pmfColvars x\n  pmfHistoryFrequency 2\n}\n")
+SCRIPTED = ("colvar {\n  name s\n  scriptedFunction f\n  scriptedFunctionType vector\n  scriptedFunctionVectorSize 3\n"
+            "  distanceZ {\n    main { atomNumbers 1 }\n    ref { dummyAtom (0,0,0) }\n    axis (0,0,1)\n  }\n}\n")
+OPESREP = cv("x", 1, GRIDCV) + ("opes_metad {\n  name o\n  colvars x\n  newHillFrequency 2\n  barrier 10\n  gaussianSigma 0.5\n"
+                                "  multipleReplicas on\n  replicaID a\n  neighborList on\n  sharedFreq 2\n}\n")
+NNET = ("colvar {\n  name nn\n  neuralNetwork {\n    output_component 1\n    layer1_WeightsFile w.txt\n    layer1_BiasesFile b.txt\n"
+        "    layer1_activation tanh\n    distanceZ {\n      main { atomNumbers 1 }\n      ref { dummyAtom (0,0,0) }\n      axis (0,0,1)\n    }\n  }\n}\n")
+NNET_FILES = {"w.txt": "0.5\n0.25\n", "b.txt": "0.0\n0.1\n"}
 CVTSF = cv("x", 1, "  timeStepFactor 2\n") + "harmonic {\n  name r\n  colvars x\n  centers 1.0\n  forceConstant 2.0\n  timeStepFactor 2\n}\n"
 COORD = ("colvar {\n  name c\n  coordNum {\n    cutoff 4.0\n    tolerance 0.001\n    pairListFrequency 2\n"
          "    group1 { atomNumbers 1 2 }\n    group2 { atomNumbers 3 4 }\n  }\n}\n")
@@ -77,6 +84,10 @@ ENTRIES = [
     ("opesad.adaptiveSigmaStride", OPESAD, ["opes_metad"], "adaptiveSigmaStride", 3),
     ("opes.pmfHistoryFrequency", OPESPMF, ["opes_metad"], "pmfHistoryFrequency", 3),
     ("opes.printTrajectoryFrequency", OPES, ["opes_metad"], "printTrajectoryFrequency", 3),
+    ("colvar.scriptedFunctionVectorSize", SCRIPTED, ["colvar"], "scriptedFunctionVectorSize", 3),
+    ("opesrep.sharedFreq", OPESREP, ["opes_metad"], "sharedFreq", 3),
+    ("opesreprof0.sharedFreq", OPESREP.replace("  sharedFreq 2\n", ""), ["opes_metad"], "sharedFreq", 0),
+    ("nnet.output_component", NNET, ["colvar", "neuralnetwork"], "output_component", 3, NNET_FILES),
 ]
 
 BY_ID = dict((e[0], e) for e in ENTRIES)
@@ -152,6 +163,12 @@ MODEL = {
     "opesad.adaptiveSigmaStride": ("opes", dict(_R, tf="1", pace="2", rof2="3", adaptive="on", adstride="4"), "adstride"),
     "opes.pmfHistoryFrequency": ("opes", dict(_R, tf="1", pace="2", rof2="3", pmf="on", pmfhist="2"), "pmfhist"),
     "opes.printTrajectoryFrequency": ("opes", dict(_R, tf="1", pace="2", rof2="3"), "trajfreq"),
+    # (the simulator has no scripting: an accepted scripted function reports an error at every step, which is not a death)
+    "colvar.scriptedFunctionVectorSize": ("scripted", dict(size="3"), "size"),
+    "opesrep.sharedFreq": ("opes", dict(_R, tf="1", pace="2", rof2="3", replicas="on", nlist="on", shared="2"), "shared"),
+    "opesreprof0.sharedFreq": ("opes", dict(rof="0", tf="1", pace="2", rof2="0", replicas="on", nlist="on"), "shared"),
+    # two output nodes: the model of this entry is the bound itself (python, see check.py)
+    "nnet.output_component": ("nnet", dict(index="1", outputs="2"), "index"),
 }
 ENTRIES = [e for e in ENTRIES if e[0] in MODEL]
 BY_ID = dict((e[0], e) for e in ENTRIES)
